@@ -15,4 +15,7 @@ CONSTANTS
   Strict = TRUE
   WithServe = FALSE
   Hist = FALSE
+  SlackEarly = 0
+  SlackLate = 0
+  SlackSched = 0
 PROPERTIES C18_Terminates
